@@ -125,7 +125,7 @@ func analyse(p *load.Program, prop *rules.Prop, tier rules.Tier, cache map[strin
 
 func check(args []string) {
 	fs := flag.NewFlagSet("check", flag.ExitOnError)
-	propID := fs.String("prop", "", "property id")
+	propID := fs.String("prop", "", "property id (or a comma-separated list; units are shared)")
 	tierName := fs.String("tier", "", "quick|thorough")
 	dir := fs.String("dir", "/repo", "repository")
 	verbose := fs.Bool("v", false, "print all obligations")
@@ -160,6 +160,10 @@ func check(args []string) {
 		if v, err := strconv.Atoi(s); err == nil {
 			seed = v
 		}
+	}
+	if strings.Contains(*propID, ",") {
+		checkMany(strings.Split(*propID, ","), *tierName, *dir, overlay, seed)
+		return
 	}
 	prop := rules.Props[*propID]
 	if prop == nil {
@@ -206,6 +210,70 @@ func check(args []string) {
 		stats.Merge(&st)
 	}
 	finish(prop, *tierName, seed, total, stats, cfgNames, files, start, *verbose, nil)
+}
+
+// checkMany evaluates several properties on the default configuration sharing
+// the analysis units (used by the self-test battery); prints one JSON line.
+func checkMany(ids []string, tierName, dir string, overlay map[string][]byte, seed int) {
+	out := map[string][]string{}
+	p, err := load.Load(load.Options{Dir: dir, Overlay: overlay})
+	if err != nil {
+		for _, id := range ids {
+			out[id] = []string{"LOAD"}
+		}
+		b, _ := json.Marshal(out)
+		fmt.Println(string(b))
+		return
+	}
+	tier := rules.Tier{Name: tierName, Depth: 4}
+	cache := map[string]*rules.UnitResult{}
+	known := readKnownFindings()
+	for _, id := range ids {
+		prop := rules.Props[id]
+		if prop == nil {
+			out[id] = []string{"UNCLAIMED"}
+			continue
+		}
+		col, _ := analyse(p, prop, tier, cache)
+		obs := col.ForProp(id)
+		set := map[string]bool{}
+		for _, o := range obs {
+			if len(o.Fails) == 0 {
+				continue
+			}
+			isKnown := false
+			for _, kf := range known {
+				if kf.Prop == id && kf.Key == o.Key() {
+					isKnown = true
+				}
+			}
+			if !isKnown {
+				set[o.Rule] = true
+			}
+		}
+		for _, fl := range prop.Floors {
+			n := 0
+			for _, o := range obs {
+				if rules.MatchKey(fl.Pattern, o.Key()) {
+					n += len(o.Sites)
+					if len(o.Sites) == 0 && o.Instances > 0 {
+						n++
+					}
+				}
+			}
+			if n < fl.Min {
+				set["FLOOR:"+fl.Pattern] = true
+			}
+		}
+		var fails []string
+		for k := range set {
+			fails = append(fails, k)
+		}
+		sort.Strings(fails)
+		out[id] = fails
+	}
+	b, _ := json.Marshal(out)
+	fmt.Println(string(b))
 }
 
 func firstLine(s string) string {
